@@ -18,7 +18,7 @@ class C09(Prop):
                    "limited_maximal_cliques on the input graph)",
                    "which tied candidate the heuristic prefers is not part of the property: the model's step relation allows any non-zero-score clique"]
     model_scope = "modelled: covers/eecc.py (limited_maximal_cliques, compute_scores as 'score is zero', get_EECC) and network.py remove_edge/has_edges/find_cliques"
-    budgets = {"quick": 150, "thorough": 2500}
+    budgets = {"quick": 150, "thorough": 10000}
     search_budget = {"quick": 400, "thorough": 3000}
 
     FIXTURE = [(1, 2), (1, 14), (2, 4), (2, 13), (2, 14), (3, 4), (3, 5), (4, 5), (4, 13), (4, 14), (6, 7), (6, 13), (7, 8), (7, 13),
